@@ -82,9 +82,15 @@ inductive Expr where
   | parallel (a b : Expr)
   deriving Repr
 
-/-- `_create_graphs(branches)` (expression.py:262,302,345). -/
+/-- `list(dict.fromkeys(branches))` (expression.py:292): keep the first of each
+class of equal graphs (`seen` in order of first occurrence). -/
+def dedupGraphs : List Graph → List Graph → List Graph
+  | seen, [] => seen
+  | seen, c :: cs => if Graph.anyL seen c then dedupGraphs seen cs else dedupGraphs (seen ++ [c]) cs
+
+/-- `_create_graphs(branches)` (expression.py:289-295, 318, 361). -/
 def Expr.createGraphs : Expr → List Graph → Except Exc (List Graph)
-  | .single ob, branches => (mkGraph ob branches).map ([·])
+  | .single ob, branches => (mkGraph ob (dedupGraphs [] branches)).map ([·])
   | .series a b, branches =>
     match b.createGraphs branches with
     | .error e => .error e
